@@ -819,7 +819,8 @@ class Context:
             t = I.fresh(name, th.sort)
             if n in ('ByteArray', 'ListByte'):
                 I.assume(T.IsBytes(t))
-            return I.alloc(HList(VSeq(t, KIND_OF[n], th, ekind='bytes' if n == 'ListBytes' else None), KIND_OF[n]))
+            ek = 'bytes' if n == 'ListBytes' else (ty.args[0] if (n == 'ListObj' and ty.args) else None)
+            return I.alloc(HList(VSeq(t, KIND_OF[n], th, ekind=ek), KIND_OF[n]))
         if n == 'Opaque':
             label = ty.args[0] if ty.args else ''
             t = I.fresh(name, T.Obj)
@@ -1264,16 +1265,29 @@ class Context:
             pure0 = I.pure
             I.pure = 0
             try:
+                nargs = 0
+                for kw_ in node.keywords:
+                    if kw_.arg == 'nargs':
+                        nargs = VInt(I.as_int(I.ev(kw_.value, frame))).const()
+                cargs = [VOpaque(I.fresh('closure_arg', T.Obj), 'arg') for _ in range(nargs)]
                 try:
-                    I.call(f, [], {}, node, frame)
+                    I.call(f, cargs, {}, node, frame)
                 except PyExc:
-                    pass
+                    # the claim is about the closure completing normally (a callee that raises is reported to its caller)
+                    I.pure = pure0
+                    return VBool(True)
                 I.pure = pure0
                 saved.counter = max(saved.counter, tmp.counter)
-                return I.ev(lam.body, frame)
+                body = I.truthy(I.ev(lam.body, frame))
+                # what was assumed while the closure ran (contracts of its callees, the branch it took) are hypotheses
+                hyps = tmp.pc[len(saved.pc):]
+                return VBool(z3.Implies(z3.And(*hyps), body) if hyps else body)
             finally:
                 I.pure = pure0
                 I.st = saved
+        if fn == 'bound_method':
+            o = I.unwrap(I.ev(node.args[0], frame))
+            return I.getattr(o, self.const_str(I, I.ev(node.args[1], frame)), node, frame, for_call=True)
         if fn == 'event_kwarg':
             name = self.const_str(I, I.ev(node.args[0], frame))
             k = VInt(I.as_int(I.ev(node.args[1], frame))).const()
@@ -1602,6 +1616,14 @@ class Context:
             raise Unsupported('contract parameters %r do not match %s%r' % (cp, fi.qualname, fp), node)
         if contract.assumed:
             self.assumed_contracts_used.add(contract.key)
+        # values of unverified libraries (opaque) passed where the contract expects an int / byte string: viewed as such
+        for p_, ty_ in contract.params:
+            v_ = env.get(p_)
+            if isinstance(v_, VOpaque) and v_.label != 'missing':
+                if ty_.name in ('Int', 'Nat'):
+                    env[p_] = VInt(self.obj_int(v_.t))
+                elif ty_.name in ('Bytes', 'Str', 'IntSeq'):
+                    env[p_] = VSeq(self.uf('obj_bytes', T.Obj, S.sort)(v_.t), 'str' if ty_.name == 'Str' else 'bytes')
         pre = I.st.snapshot()
         entry_env = dict(env)
         callee = fi.qualname
